@@ -515,6 +515,7 @@ func muxRunScenario(line string) string {
 				q = append(q, fmt.Sprintf("qc%d:%s%s%s:%d:%d", p.id, vfB(p.ends[0].closed), vfB(p.ends[1].closed), vfB(p.failed), len(p.q[0]), len(p.q[1])))
 			}
 			n.mu.Unlock()
+			q = append(q, fmt.Sprintf("qp%d", len(r.pend)))
 			ret = strings.Join(q, ",")
 		}
 		synctest.Wait()
